@@ -286,6 +286,17 @@ func mutationsOf(base, secret []byte, rng *rand.Rand, thorough bool, byteChanges
 			}
 		}
 	}
+	// what the listener's reused receive buffer still holds: the genuine request, then a prefix of it that keeps
+	// the original Length (the missing bytes are exactly what the previous datagram left behind); twice, so that
+	// a cut between two chains cannot separate every pair
+	for _, k := range []int{20, 21, n / 2, n - 1} {
+		if k >= 4 && k < n {
+			add("genuine-again", clone(base))
+			add("truncate-after-genuine", clone(base[:k]))
+			add("genuine-again", clone(base))
+			add("truncate-after-genuine", clone(base[:k]))
+		}
+	}
 	// length-field tampering: < 20, < n, > n, far beyond
 	ls := []int{255, 256, 257, 4095, 4096, 4097, 0x7fff, 0x8000, 0xffff, (n & 0xff) << 8}
 	for l := 0; l <= n+24; l++ {
